@@ -110,6 +110,15 @@ func discharge(script string, file string, timeoutSec int, wantModel bool, order
 		}
 	}
 	res.Seconds = time.Since(t0).Seconds()
+	nerr := 0
+	for _, t := range res.Tried {
+		if strings.Contains(t, ":error:") {
+			nerr++
+		}
+	}
+	if nerr == len(order) {
+		res.Status = "error"
+	}
 	return res
 }
 
@@ -149,7 +158,7 @@ func solveAll(prelude string, encs []*FnEnc, dir string, timeoutSec, workers int
 				b.WriteString(full[:j.ob.Pos])
 				fmt.Fprintf(&b, "\n; obligation %s\n(assert %s)\n", j.ob.Name, j.ob.At)
 				tmo := timeoutSec
-				order := []int{0, 1, 2}
+				order := []int{1, 0}
 				if j.ob.Cover {
 					b.WriteString("(check-sat)\n")
 					tmo = 2
@@ -163,6 +172,20 @@ func solveAll(prelude string, encs []*FnEnc, dir string, timeoutSec, workers int
 				}
 				file := filepath.Join(dir, fmt.Sprintf("ob%04d_%s.smt2", j.n, sanitize(j.ob.Name)))
 				j.ob.Result = discharge(b.String(), file, tmo, false, order)
+				if !j.ob.Cover && j.ob.Result.Status != "unsat" && j.ob.Result.Status != "sat" {
+					// second stage: cvc5 alone
+					r2 := discharge(b.String(), file, tmo, false, []int{2})
+					r2.Tried = append(j.ob.Result.Tried, r2.Tried...)
+					if r2.Status == "unsat" || r2.Status == "sat" {
+						r2.Seconds += j.ob.Result.Seconds
+						j.ob.Result = r2
+					} else {
+						j.ob.Result.Tried = r2.Tried
+						if j.ob.Result.Status == "error" && r2.Status != "error" {
+							j.ob.Result.Status = r2.Status
+						}
+					}
+				}
 			}
 		}()
 	}
